@@ -113,6 +113,10 @@ def oracle(ctx, seeds, scale):
         res += L.run_jobs(L.eval_docs, _jobs(ctx, 'more', _total(ctx) * (scale - 1) // 2, False))
     st = L.merge_jobs(res, None, r)
     st.into(r)
+    # the documented shape of a document of the proved grammar IS treeD d (Grammar.lean): the implementation's tree is
+    # compared with it directly, so a divergence found here is a failing input of the property, not only of the tie
+    import lib_gram
+    lib_gram.run(ctx, r, ctx.pick(120000, 1500000), ctx.pick(3, 4), key='documented-tree-differs')
     # diverging inputs of the correspondence are among the shared inputs, evaluated with their generating tree
     r.stats['diverging_inputs_received'] = len([s for s in seeds if isinstance(s, str)])
     r.rule = ('normalise(canon_root(TexSoup(src))) == expected_canon(generating tree): every command, environment, '
@@ -137,6 +141,12 @@ def replay(ctx, payload):
     s = f.get('input')
     if not isinstance(s, str):
         return True, 'nothing to replay: ' + '; '.join(payload.get('broken', []))[:400]
+    if f.get('expected_tree'):
+        import lib_gram
+        got = lib_gram.impl_tree(s, int(f.get('tol', 0)))
+        exp = f['expected_tree']
+        ok = got == exp or (len(exp) >= 8000 and got.startswith(exp))
+        return ok, 'replay %r tol=%s -> %s (treeD: %s)' % (s, f.get('tol', 0), got[:300], exp[:300])
     skip = tuple(f.get('skip') or ())
     line, soup, exc = common.impl_parse(s, 0, skip)
     if soup is None:
